@@ -1,5 +1,15 @@
-import Props.C03
+import Props.C03c
 #print axioms C03.linear_identity
 #print axioms C03.aliases
 #print axioms C03.linear_api
 #print axioms C03.anchors
+#print axioms C03.bt1886_to_linear
+#print axioms C03.bt1886_to_gamma
+#print axioms C03.bt470m_to_linear
+#print axioms C03.bt470m_to_gamma
+#print axioms C03.bt470bg_to_linear
+#print axioms C03.bt470bg_to_gamma
+#print axioms C03.power_law_curves
+#print axioms C03.xvycc_to_linear
+#print axioms C03.xvycc_to_gamma
+#print axioms C03.xvycc_curves
